@@ -236,6 +236,38 @@ where
     }
 }
 
+/// L = 0 given as an ABSENT message list (and as an empty one): the header is still bound
+pub fn c02_absent_messages<CS: BbsCiphersuite>(h: &mut H)
+where
+    CS::Expander: for<'a> ExpandMsg<'a>,
+{
+    let (sk, pk) = rand_keypair::<CS>(h);
+    let hdr = h.rng.bytes(12);
+    let mut other = hdr.clone();
+    other[3] ^= 4;
+    let empty: Vec<Vec<u8>> = vec![];
+    for (nm, ms) in [("absent", None), ("empty", Some(&empty[..]))] {
+        let s = sign::<CS>(h, &sk, &pk, Some(&hdr), ms);
+        let sid = h.last();
+        h.stat("C02.absent_messages");
+        if let Some(s) = s.ok() {
+            let sig = s.bbsPlusSignature().clone();
+            for (vn, vm) in [("absent", None), ("empty", Some(&empty[..]))] {
+                let v = verify::<CS>(h, &pk, &sig, Some(&hdr), vm);
+                h.expect(v.is_ok(), "C01.none_empty_msgs_v", &format!("signature over no messages (signed {}, verified {}) does not verify", nm, vn), &[sid, h.last()]);
+                let v = verify::<CS>(h, &pk, &sig, Some(&other), vm);
+                h.expect(!v.is_ok(), "C02.absent_messages_header", &format!("signature over no messages (signed {}, verified {}) verifies under another header", nm, vn), &[sid, h.last()]);
+                let v = verify::<CS>(h, &pk, &sig, None, vm);
+                h.expect(!v.is_ok(), "C02.absent_messages_header", &format!("signature over no messages (signed {}, verified {}) verifies without its header", nm, vn), &[sid, h.last()]);
+                let v = verify::<CS>(h, &pk, &sig, Some(&hdr), Some(&[b"one".to_vec()]));
+                h.expect(!v.is_ok(), "C02.absent_messages_extra", "signature over no messages verifies with one message", &[sid, h.last()]);
+            }
+        } else {
+            h.expect(false, "C01.sign", "sign failed for L = 0", &[sid]);
+        }
+    }
+}
+
 /// inputs beyond 2^16 octets: a 70000-octet header, a 65536-octet message; signing works and the LAST octet
 /// of each stays bound
 pub fn c02_large_octets<CS: BbsCiphersuite>(h: &mut H)
@@ -481,6 +513,37 @@ pub fn interleave_dispatch(h: &mut H, prop: &str) {
     }
 }
 
+/// the EMPTY octet string is a message like any other: updates from it and to it
+fn c12_empty_message<CS: BbsCiphersuite>(h: &mut H)
+where
+    CS::Expander: for<'a> ExpandMsg<'a>,
+{
+    let (sk, pk) = rand_keypair::<CS>(h);
+    let mut cur = vec![rand_msg(h), vec![], rand_msg(h)];
+    let s0 = match sign::<CS>(h, &sk, &pk, None, Some(&cur)).ok() { Some(s) => s, None => return };
+    let mut sig = s0.bbsPlusSignature().clone();
+    let steps: Vec<(usize, Vec<u8>)> = vec![(1, b"filled".to_vec()), (1, vec![]), (0, vec![]), (0, b"back".to_vec()), (2, vec![])];
+    for (i, newv) in steps {
+        let u = update::<CS>(h, &sig, &sk, &cur[i], &newv, i, 3);
+        let uid = h.last();
+        h.stat("C12.empty_message");
+        match u.ok() {
+            None => { h.expect(false, "C12.update", "update_signature failed on a valid update involving the empty message", &[uid]); return; }
+            Some(ns) => {
+                let nsig = ns.bbsPlusSignature().clone();
+                let mut next = cur.clone();
+                next[i] = newv;
+                let v = verify::<CS>(h, &pk, &nsig, None, Some(&next));
+                h.expect(v.is_ok(), "C12.verify_current", "a signature updated from / to the empty message does not verify for the new vector", &[uid, h.last()]);
+                let a_ref = reference_A::<CS>(&sk.0, &pk, None, &next, nsig.e);
+                h.expect(a_ref == Some(nsig.A), "C12.equals_fresh", "updated A differs from B(msgs)/(sk+e) (empty message involved)", &[uid]);
+                cur = next;
+                sig = nsig;
+            }
+        }
+    }
+}
+
 /// positions that no longer fit a byte: a 258-message signature updated at 255, 256, 257
 fn c12_large_positions<CS: BbsCiphersuite>(h: &mut H)
 where
@@ -520,6 +583,7 @@ where
     CS::Expander: for<'a> ExpandMsg<'a>,
 {
     c12_large_positions::<CS>(h);
+    c12_empty_message::<CS>(h);
     let thorough = h.tier_thorough;
     let ls: &[usize] = if thorough { &[1, 2, 3, 5, 10] } else { &[1, 2, 3, 5] };
     let chains = if thorough { 12 } else { 2 };
